@@ -131,6 +131,10 @@ def basecase(fn_zeroth_deriv, domain=DOM_ALL, extras=0):
             if n < 0:
                 raise ValueError('n must be a nonnegative integer')
             if n:
+                if np.asarray(args[-1]).dtype.kind in 'biu':
+                    # a derivative at an integer-typed point is not an integer:
+                    # evaluate the closed forms in floating point
+                    args = args[:-1] + (np.asarray(args[-1], dtype=float),)
                 return f(*args, out=out, n=n)
             elif out is None:
                 return fn_zeroth_deriv(*args)
@@ -216,6 +220,8 @@ def np_polygamma(m, x, out=None):
     """
     if out is None:
         out = np.copy(x)
+        if out.dtype.kind in 'biu':
+            out = out.astype(float)
     out[...] = scipy.special.polygamma(m, x)
     return out
 
